@@ -93,7 +93,7 @@ def ad_run(mon, rng):
 def directed_auer_emp(mon, rng):
     """Auer with empirical widths under strongly heteroscedastic noise per (design, objective): the per-objective widths
     differ, so 'summed widths in every objective' differs from 'sum of the two largest widths'.  (seeded/C02b-auer-max-of-widths)"""
-    K = int(rng.integers(3, 7))
+    K = int(rng.integers(3, 7)) if rng.random() < 0.65 else int(rng.integers(9, 21))  # >= 9: set iteration order is no longer ascending
     m = int(rng.choice([2, 3]))
     case, order = runs.make_case(rng, "Auer-emp", K=K, m=m, scale=10.0, ds_family=str(rng.choice(["random", "chain"])), eps=1.0,
                                  contraction=float(rng.choice([1, 2, 4])), noise_var=1.0)
